@@ -27,6 +27,8 @@ HEADERS = [
     # the log of a wrapper that tried another configuration first: a give-up phrase BEFORE the plan (the log contains a plan)
     "\nEnforced Hill-climbing failed !\nswitching to Best-first Search now.\n\nadvancing to distance:    3\n                          0\n\n",
     "\nff: goal can be simplified to FALSE. No plan will solve it\n\nsecond run:\n\nadvancing to distance:    1\n                          0\n\n",
+    # the plan marker at the very beginning of the log / after one blank line / after a few characters
+    "", "\n", "ff v2\n",
 ]
 MARKER = "ff: found legal plan as follows\n\n"
 TRAILERS = [
@@ -467,8 +469,10 @@ def tasks_for(tier, seed):
             tasks.append({"kind": "ff", "entry": "content", "word_lens": ws, "trailer_len": tl, "numbers": [0, 1, 2][: len(ws)],
                           "indent": 4, "header": 1, "trailer": 0, "crlf": False, "blank_after_plan": False, "free_line": True})
     # a give-up phrase of an earlier attempt precedes the plan
-    for entry in ("status", "parse_plan"):
-        for header in (2, 3):
+    for entry in ("status", "parse_plan", "content"):
+        for header in (2, 3, 4, 5, 6):
+            if entry == "content" and header in (2, 3):
+                continue
             for ws in word_shapes_1[:2] + word_shapes_2[:1]:
                 tasks.append({"kind": "ff", "entry": entry, "word_lens": ws, "trailer_len": 0, "numbers": [0, 1, 2][: len(ws)],
                               "indent": 4, "header": header, "trailer": 0, "crlf": False, "blank_after_plan": True, "free_line": False})
